@@ -222,12 +222,12 @@ theorem leftsize_updAll (n : Nat) (idx : List Nat) (hidx : idx.Nodup) :
     simp only [List.length_cons]; push_cast; omega
 
 /-- **The initial partition establishes the invariant.** -/
-theorem initAB_inv {c : Ctx} (hg : Good c) (hm : 0 < c.runs.size) (rank : Nat) :
+theorem initAB_inv {c : Ctx} (hg : Good c) (r : Routine) (hm : 0 < c.runs.size) (rank : Nat) :
     let l := roundUpPow2 (nmaxOf c + 1) - 1
     let n := l / 2
     let R := sortBy (lcomp c.lt) (realOf c n (List.range c.runs.size))
     let D := dummyOf c n (List.range c.runs.size)
-    Inv c n (initAB c.runs.size (seqlenOf c) (R ++ D) n l (rank / l)) ∧
+    Inv c r n (initAB c.runs.size (seqlenOf c) (R ++ D) n l (rank / l)) ∧
     Lsz c n (initAB c.runs.size (seqlenOf c) (R ++ D) n l (rank / l)) = ((R.take (rank / l)).length : Int) := by
   intro l n R D
   obtain ⟨k, hk, hnmax⟩ := padded_length hm hg
@@ -366,7 +366,7 @@ theorem initAB_inv {c : Ctx} (hg : Good c) (hm : 0 < c.runs.size) (rank : Nat) :
         rw [hpi] at hpR
         exact Prod.ext hpR.2.2 hpi
       rw [hpe] at this
-      exact (lcomp_iff_before' _ _ _ _ _).mp this
+      exact LeR.of_before hg.hlt r ((lcomp_iff_before' _ _ _ _ _).mp this)
   · unfold Lsz
     rw [leftsize_updAll n _ List.nodup_range _ _ hLnd (by
       intro s hs
